@@ -4,6 +4,10 @@
 EXTENDS Wraps
 Specs2 == {"m", "cm", "s", "none", "defA", "depA2"}       \* "defA" twice: the first defines A, the second refers to it
 Specs3 == {"cm", "none", "defA", "depA2"}
+K3 == {0, 1, 3}
+\* thorough instance (MC_C17_full.cfg): three parameters over the full specification pool and every number of positional arguments
+Specs3T == {"m", "cm", "s", "none", "defA", "depA2"}
+K3T == {0, 1, 2, 3}
 ArgPool == {<<R(2), "m">>, <<R(300), "cm">>, <<R(5), "s">>, <<R(7), "">>}
 RetPool == {<<"scalar", "none">>, <<"scalar", "m">>, <<"scalar", "defA">>, <<"scalar", "depA2">>, <<"tuple", "m", "none">>, <<"tuple", "dimensionless", "defA">>}
 DimPool == {"L", "T", "", "none"}
@@ -15,7 +19,7 @@ W2 == /\ kind = "init" /\ kind' = "wraps" /\ ret' = <<"scalar", "none">>
       /\ \E s1 \in Specs2, s2 \in Specs2, a1 \in ArgPool, a2 \in ArgPool, kk \in 0..2, st \in BOOLEAN :
             specs' = <<s1, s2>> /\ args' = <<a1, a2>> /\ k' = kk /\ strict' = st /\ out' = Outcome(<<s1, s2>>, <<a1, a2>>, st)
 W3 == /\ kind = "init" /\ kind' = "wraps" /\ ret' = <<"scalar", "none">>
-      /\ \E s1 \in Specs3, s2 \in Specs3, s3 \in Specs3, a1 \in ArgPool, a2 \in ArgPool, a3 \in ArgPool, kk \in {0, 1, 3}, st \in BOOLEAN :
+      /\ \E s1 \in Specs3, s2 \in Specs3, s3 \in Specs3, a1 \in ArgPool, a2 \in ArgPool, a3 \in ArgPool, kk \in K3, st \in BOOLEAN :
             specs' = <<s1, s2, s3>> /\ args' = <<a1, a2, a3>> /\ k' = kk /\ strict' = st /\ out' = Outcome(<<s1, s2, s3>>, <<a1, a2, a3>>, st)
 Ret == /\ kind = "init" /\ kind' = "ret" /\ k' = 2 /\ strict' = TRUE
        /\ \E r \in RetPool, a1 \in ArgPool :
